@@ -621,6 +621,18 @@ def main(pid):
 
     for fn in (xo.Struct.__init__, xo.Struct._to_buffer, xo.Struct._from_buffer, xo.struct.Field.__get__, xo.struct.Field.__set__, xo.struct.Field.get_offset, xo.Struct._update, xo.Array.__init__, xo.Array._inspect_args, xo.Array._to_buffer, xo.Array._from_buffer, xo.Array.__getitem__, xo.Array.__setitem__, xo.Array._update, xo.Array._get_offset, xo.Array.to_nplike, xo.String.__init__, xo.string.MetaString._to_buffer, xo.string.MetaString._from_buffer, xo.Ref._to_buffer, xo.Ref._from_buffer, xo.ref.MetaUnionRef._to_buffer, xo.ref.MetaUnionRef._from_buffer, xo.UnionRef.get, xo.typeutils.allocate_on_buffer, xo.context.XBuffer.allocate, xo.context.XBuffer.grow, xo.context.XBuffer.update_from_xbuffer):
         rep.add_function(fn)
+    import xobjects.hybrid_class as xh
+    import xobjects.context_cpu as xcc
+    import xobjects.context as xc
+
+    extra_fns = {
+        "C17": [xcc.KernelCpu.__call__, xcc.KernelCpu.to_function_arg, xc.KernelDispatcher.__call__, xc.Arg.get_c_type],
+        "C18": [xh._FieldOfDressed.__get__, xh._FieldOfDressed.__set__, xh.MetaHybridClass.__new__, xh.HybridClass.move, xh.HybridClass.copy, xh.HybridClass._reinit_from_xobject, xh.HybridClass.xoinitialize],
+        "C19": [xh.HybridClass.to_dict, xh.HybridClass.from_dict, xh.HybridClass._static_from_dict, xo.Struct._to_json, xo.Array._to_json, xo.struct.Field.get_default, xo.typeutils.dispatch_arg],
+        "C20": [xo.Struct.__getstate__, xo.Struct.__setstate__, xh.HybridClass.__getstate__, xh.HybridClass.__setstate__],
+    }
+    for fn in extra_fns.get(pid, []):
+        rep.add_function(fn)
     rep.bounds = {
         "types": f"{rep.extra['types_in_catalogue']} type expressions (enumerated)",
         "shapes": "dynamic axes of length 0..3 (enumerated), static axes as declared",
@@ -629,6 +641,15 @@ def main(pid):
         "histories": "<= 3 (quick) / 4 (thorough) steps, enumerated",
         "outside_claim": ["types/shapes/values outside the catalogue", "non-contiguous source ndarrays (storage model S9 represents flatten+tobytes)", "GPU buffers"],
     }
+    if pid == "C17":
+        rep.bounds["types"] = "6 xobject types (static struct, struct with dynamic array + nested struct, 1-D and 2-D scalar arrays, Int32 array, struct holding a union reference), 20 probe kernels; 10 scalar types at their extremes (enumerated)"
+        rep.bounds["histories"] = "creation of 8 objects in one buffer, then <= 3 steps of {grow by a SOLVER amount, allocate a SOLVER size, three more arrays}; serial and OpenMP (2 threads) contexts"
+        rep.bounds["outside_claim"] = ["what the compiled C code does with the pointers (concrete probe kernels only)", "scalar conversion and refusals are decided by execution, not by the solver", "GPU contexts", "BufferByteArray as kernel argument storage"]
+        rep.stubs = ["S1", "S2", "S9", "S12"]
+    if pid in ("C18", "C19", "C20"):
+        rep.bounds["types"] = f"{rep.extra['types_in_catalogue']} type expressions / hybrid class definitions (enumerated; hybrid: scalars with and without declared defaults, strings, scalar arrays of 1-3 axes with and without declared defaults, nested hybrid classes to depth 3, references to hybrid classes, renamed fields)"
+        rep.bounds["values"] = "value families of C01 plus: equal to the declared defaults (all / nested classes only / equal only under broadcasting), zeros and empty texts (enumerated)"
+        rep.bounds["outside_claim"] += ["default factories", "json.dumps-serialisability of the forms", "the C pickle serialiser and NumPy array pickling (concrete validation pass and replays only)"]
     if tr == "quick":
         rep.bounds["quick_tier"] = "scenarios with many allocations (reference-bearing types; copies; histories) assume a first free chunk of >= 16 KiB + 64 bytes ('roomy'); running out of space is explored by the growth placements (capacity 0; N=0 with a symbolic grow step for types without references)"
     if pjobs:
@@ -641,5 +662,14 @@ def main(pid):
         "allocator representation invariant for the arbitrary pre-state (sorted, disjoint, non-touching, non-empty chunks inside capacity) -- the invariant C04 proves inductive",
         "explicit offset: caller guarantees the region is inside the buffer and not free",
     ]
-    rep.stubs = ["S1", "S2", "S9"]
+    if not rep.stubs:
+        rep.stubs = ["S1", "S2", "S9"] + (["S10", "S11"] if pid in ("C18", "C19", "C20") else [])
+    if pid in ("C18", "C19", "C20"):
+        rep.assumptions += [
+            "S10: pickle's object protocol (reduce_ex(4), __getstate__/__setstate__ or instance __dict__, one memo, classes by reference) is run by copy.deepcopy over the real classes with by-value leaves (solver terms; the write-log as the buffer's bytes); the real pickle runs in the concrete validation pass and in replays",
+            "S11: typed NumPy views of a symbolic buffer are write-back arrays (an element assignment through the view or a view of it is stored to the write-log)",
+            "the default context of to_dict(copy_to_cpu=True) is a symbolic context during the symbolic run",
+        ]
+    if pid == "C17":
+        rep.assumptions += ["S12: ffi.from_buffer(x) = address of the first byte of x; ffi.cast(ctype, address) = typed pointer; numpy.frombuffer(storage).ctypes.data = address of the storage; storage[start:] = view record; the compiled function is a recorder performing cffi's pointer type check against the declared signature; validated by the concrete pass with real compiled probe kernels"]
     return rep.finish()
